@@ -32,10 +32,10 @@ theorem duo_request_hq0 {cfg : Cfg} {G : Nat} {n : Net} {x y : Nat} {stx sty : N
       ((stage.rest cfg stx.s.p.address stx.s.p.hsa : Nat) : Int) ≤ B)
     (now : Int) (htl : tl ≤ now) (hown : n.bus.seen.getD x 0 < now) (hgx : now ≤ n.bus.seen.getD x 0 + (cfg.P : Nat))
     (hgy : now ≤ n.bus.seen.getD y 0 + (cfg.P : Nat))
-    (hpy : sty.s.p.rate = cfg.rate ∧ sty.s.p.slotBits = cfg.slotBits)
     (n' : Net) (c : Ctx) (hp : n.poll x now = (n', [], some (.ok c)))
-    (htx : c.tx = some (statusRequestBytes sty.s.p.address stx.s.p.address)) (hpb : c.s.pendingBytes = 0) :
-    ∃ dn rs lY coll, HQ0 cfg G n' x y (upSt stx c) sty now r0 hd dn rs lY coll now := by
+    (htx : c.tx = some (statusRequestBytes sty.s.p.address stx.s.p.address)) :
+    ∃ dn rs lY coll, HQ0 cfg G n' x y (upSt stx c) sty now r0 hd dn rs lY coll now ∧
+      countTok (hd ++ rs.map telOf) ≤ 2 := by
   have hr := hok.rate
   have hs := d.solo
   have hsl := SStage.slack_ge cfg stage
@@ -107,16 +107,19 @@ theorem duo_request_hq0 {cfg : Cfg} {G : Nat} {n : Net} {x y : Nat} {stx sty : N
     have hh := List.append_inj_left' this rfl
     rw [hh]
     exact List.filter_sublist
-  obtain ⟨dn, rs, lY, coll, hX⟩ := LLOkX.ofLLOk (d.lis.other x now hxy)
+  obtain ⟨dn, rs, lY, coll, hX0, hcnt⟩ := d.lisX
+  have hX := hX0.other x now hxy
+  have hpy := d.py
+  have hpb : c.s.pendingBytes = 0 := by rw [hpbq]; exact d.pbx
   have hl1 : LoneLog cfg stx.s.p.address sty.s.p.address x { n.bus with seen := n.bus.seen.set x now } :=
     ⟨d.lone.rate, d.lone.corrupt, d.lone.chained, d.lone.live, d.lone.own, d.lone.kinds⟩
   have hX' := LLOkX.send (H' := now + (cfg.b66 : Nat) + (cfg.slot : Nat) + (cfg.P : Nat)) (b' := n'.bus) hX hl1 hr haL now
     (statusRequestBytes sty.s.p.address stx.s.p.address) (by rw [statusRequestBytes_length]; omega) (by omega)
     (by rw [hsy]; exact Int.le_trans d.seens.2 htl) (by rw [hsy]; exact hgy) hP100 (by rw [hbus, hspec]) (by rw [hbus, e4])
   have htxsX : n.bus.txs = dn ++ rs := hX.2.2.2.2.2.2.2.1
-  refine ⟨_, _, lY, coll, hS, hs'.1, hs'.2, ?_, ?_, ?_,
+  refine ⟨_, _, lY, coll, ⟨hS, hs'.1, hs'.2, ?_, ?_, ?_,
     by rw [hset, List.getElem?_set_ne hxy]; exact d.gy, d.yx, by rw [hbus, e4]; simp only [List.length_set]; exact d.ys,
-    by rw [hset, List.length_set]; exact d.yl, by rw [haddr]; exact hX', ?_, hpy, hpb, ?_, ?_⟩
+    by rw [hset, List.length_set]; exact d.yl, by rw [haddr]; exact hX', ?_, hpy, hpb, ?_, ?_⟩, ?_⟩
   · rw [haddr, hbus]
     refine ⟨e3.trans d.lone.rate, e5.trans d.lone.corrupt, ?_, ?_, ?_, ?_⟩
     · rw [e1]
@@ -158,5 +161,12 @@ theorem duo_request_hq0 {cfg : Cfg} {G : Nat} {n : Net} {x y : Nat} {stx sty : N
     · simp only [List.mem_singleton] at ht; subst ht; exact Int.le_refl _
   · rw [hseen, hbus, e4, hsy]
     exact ⟨Int.le_refl _, Int.le_trans d.seens.2 htl⟩
+  · have et : telOf (rqTx x stx.s.p.address sty.s.p.address now) = reqTel sty.s.p.address stx.s.p.address :=
+      telOf_req _ _ _ (by omega) (by omega) rfl
+    have : countTok [telOf (rqTx x stx.s.p.address sty.s.p.address now)] = 0 := by rw [et]; rfl
+    rw [List.map_append, ← List.append_assoc, countTok_append]
+    have e3 : List.map telOf [({ start := now, sender := x, bytes := statusRequestBytes sty.s.p.address stx.s.p.address, dropped := false } : Transmission)] = [telOf (rqTx x stx.s.p.address sty.s.p.address now)] := rfl
+    rw [e3]
+    omega
 
 end PV
